@@ -15,6 +15,7 @@ types (`toGen`, `toSpec`) and defines the sequential application (`seqAdjust`).
   structurally equal in every modelled field, maps (`annotations`, `unified`) through `lookup`,
   with the two named weakenings (below).  `C03_general` is the same from ANY well-formed
   starting spec (the reply never depends on the container).
+* `C03_success_iff` — inside `WellFormed` the two ways succeed or fail together.
 * `C03_propagation_partial` — the same WITHOUT the guard "no mount propagation option": when
   both ways succeed the specs agree in every field (`SpecEqCore`) except the rootfs
   propagation, for which combined ⊑ sequential (`RootfsLe`, weakening 3).
@@ -63,9 +64,10 @@ that clause:
 NOT needed (weaker hypotheses than planned in DESIGN.md): duplicate keys inside one response
 (the ledger rejects a key set twice; duplicate markers are merged), empty keys, set-then-remove
 order inside one response (both models now let the set win), hugepage sizes already in the
-original.  The only fact used from the ledger (C01) is that the memory limit has at most one
-setter (`Compose.run_memFree`): `AdjustResources` ignores a limit of 0, so two setters
-`5` then `0` would differ.
+original.  The only fact used from the ledger (C01) for `C03` is that the memory limit has at
+most one setter (`Compose.run_ledgerOk`): `AdjustResources` ignores a limit of 0, so two
+setters `5` then `0` would differ (`memory_limit_needs_ledger`); `C03_success_iff` uses the
+same fact for the block-I/O and RDT class.
 
 Externals: the CDI injector is the recording one (or absent); the block-I/O / RDT class
 resolvers and the host's mount table are arbitrary parameters.
@@ -473,6 +475,27 @@ theorem C03 {ext : Externals} {bad : List Str}
     (hseq : seqAdjust ext (toSpec c0) ((adjs rs).map toGen) = .ok sS) :
     ∃ sC, adjust ext (toSpec c0) (toGen st'.reply) = .ok sC ∧ SpecEq sC sS :=
   C03_general hi c0 rs st' h hwf (toSpec c0) sS hs0 hseq
+
+/-- **Both ways succeed or fail together** (inside `WellFormed`): the generator accepts the
+    combined reply iff it accepts the plugins' adjustments one after another.  (⇐ is part of
+    `C03`; ⇒ uses the ledger: the block-I/O / RDT class has a single setter, so no class the
+    resolver rejects is masked by a later one.) -/
+theorem C03_success_iff {ext : Externals} {bad : List Str}
+    (hi : ext.injectCDI = some (recordingInjector bad) ∨ ext.injectCDI = none)
+    (c0 : Container) (rs : List (Plugin × Option Response)) (st' : State)
+    (h : run Quirks.fixed (initCreate c0) rs = .ok st') (hwf : ∀ a ∈ adjs rs, WellFormed a)
+    (s0 : Oci.Spec) (hs0 : SpecWF s0) :
+    (∃ sC, adjust ext s0 (toGen st'.reply) = .ok sC) ↔
+    (∃ sS, seqAdjust ext s0 ((adjs rs).map toGen) = .ok sS) := by
+  constructor
+  · rintro ⟨sC, hC⟩
+    rw [adjs_eq] at hwf ⊢
+    obtain ⟨hrep, hc⟩ := run_chain c0 rs st' h (fun a ha => wellFormed_core a (hwf a ha))
+    rw [hrep] at hC
+    exact compose_converse hi _ hc (fun a ha => wellFormed_noProp a (hwf a ha)) s0 sC hs0 hC
+  · rintro ⟨sS, hS⟩
+    obtain ⟨sC, hC, _⟩ := C03_general hi c0 rs st' h hwf s0 sS hs0 hS
+    exact ⟨sC, hC⟩
 
 /-- **C03 with mount propagation options** (only the core guard): then `AdjustMounts` can fail
     on either side (`guard_propagation_sticky`), so BOTH successes are hypotheses; the specs
